@@ -13,7 +13,7 @@ fn simple_names(p: &JPath) -> bool {
         !n.is_empty() && n.chars().all(|c| c.is_ascii_alphanumeric() || c == '_' || !c.is_ascii()) && !n.chars().next().unwrap().is_ascii_digit()
     }
     fn ok_str(s: &str) -> bool {
-        !s.contains('"') && !s.contains('\\') && !s.chars().any(|c| (c as u32) < 0x20)
+        !s.starts_with("ILL-FORMED-UTF8[") && !s.contains('"') && !s.contains('\\') && !s.chars().any(|c| (c as u32) < 0x20)
     }
     fn st(s: &Step) -> bool {
         match s {
